@@ -107,7 +107,11 @@ Judge(t) ==
         c12 == (IF forbiddenIO # {} THEN {"forbidden_pairing_in_output"} ELSE {})
                \cup (IF t.steps_known /\ forbiddenStep # {} THEN {"forbidden_pairing_created_by_a_swap"} ELSE {})
                \cup (IF t.distance /\ ~(DistAll(nt, out) + Len(nt.tops) < DistAll(nt, g0)) THEN {"distance_to_target_not_smaller"} ELSE {})
-        failed == IF t.timeout THEN {} ELSE IF t.raised # "" THEN {"raised"} ELSE IF Which = "C11" THEN c11 ELSE c12
+        \* a call stopped by the watchdog returned nothing: what it did to its input and every swap it had applied are still judged
+        inputTouched == IF t.g0_after # t.g0 \/ ~t.input_annotations_same THEN {"input_network_modified"} ELSE {}
+        partial == IF Which = "C11" THEN inputTouched \cup (IF t.steps_known THEN stepStruct ELSE {})
+                   ELSE (IF t.steps_known /\ forbiddenStep # {} THEN {"forbidden_pairing_created_by_a_swap"} ELSE {})
+        failed == IF t.timeout THEN partial ELSE IF t.raised # "" THEN {"raised"} ELSE IF Which = "C11" THEN c11 ELSE c12
         pinnedOnly == /\ t.steps_known /\ failed # {} /\ failed \subseteq {"motif_shape_changed"}
                       /\ \A i \in accepted : classes[i] \in {"repaired", "pinned_ids"}
                       /\ \E i \in accepted : classes[i] = "pinned_ids"
